@@ -333,3 +333,15 @@ PROPS["C16"] = dict(
     level_text="Sampled sources and parameters; exact comparison per output page.",
     level_note="Trusted base: pyref/pdf.py and gen/rawpdf.rs. Annotations, outlines and form fields across operations are not judged.",
 )
+
+PROPS["C17"] = dict(
+    title="Incremental updates are append-only and take effect",
+    level="exploration",
+    technique="history monitor over revision chains: generated bases (own PDF builder, classic and object-stream/xref-stream layouts) go through histories of IncrementalFormFiller and IncrementalTextNoteEditor edits; every revision is kept and judged by an independent reader: byte-prefix (append-only), strict parse and validation of the chain, edited values read back (independent reader and the library's own reader), and object-by-object equality of everything outside the edit's change set",
+    stages=[rust(), py("pyref.checks.c17")],
+    rule="bases with 1-3 pages, 1-5 text fields incl. a non-terminal parent (address.street), 0-2 text notes per page, a bystander content stream; layouts classic / object stream + xref stream; histories of 1-5 edits mixing fill, fill_many, and note add / update / remove batches; values over {ascii, empty, delimiters, Latin-1, cp1252 punctuation, BMP, astral, control characters, BOM-like prefix, long}. Non-trivial: at least one edit produced a revision; distinct by case",
+    assumptions=["a form edit may rewrite fields, widgets, appearance streams, the AcroForm dictionary and the catalog; a note edit may rewrite pages, text and popup annotations and indirect /Annots arrays; every other object must be identical", "a note's position is the lower-left or upper-left corner of its /Rect", "an edit the library refuses with an error (e.g. a value its appearance font cannot show, an empty note) is not judged"],
+    floors={"quick": {"evaluations": 1200, "distinct": 900, "counters": {"revisions": 1800, "objects_compared": 25000, "values": 2500}}, "thorough": {"evaluations": 40000, "distinct": 30000}},
+    level_text="Sampled histories with exact per-revision oracles.",
+    level_note="Trusted base: pyref/pdf.py, pyref/validate.py, gen/rawpdf.rs. write_incremental_with_page_replacement / _with_overlay (path-based writer entry points) are not driven.",
+)
